@@ -54,8 +54,8 @@ func MetricsQueryExpressionsParser(ctx *fasthttp.RequestCtx) {
 		WriteResponse(ctx, httpResp)
 		return
 	}
-	var readJSON *structs.OTSDBMetricsQueryExpRequest
-	if err := json.Unmarshal(rawJSON, &readJSON); err != nil {
+	readJSON := &structs.OTSDBMetricsQueryExpRequest{}
+	if err := json.Unmarshal(rawJSON, readJSON); err != nil {
 		var badJsonKey string
 		if e, ok := err.(*json.UnmarshalTypeError); ok {
 			badJsonKey = e.Field
